@@ -99,7 +99,7 @@ def gen_consts(gl, dbs=("d1",), prelude=5):
             "MaxCmds": 0, "MaxSnaps": 9, "MaxCrashes": 3, "Dev": [], "GenLen": gl, "MaxLog": 20, "MaxPubs": 3, "PreludeLen": prelude}
 
 
-TESTS = {"R": "TestVerifMetaReplay", "RT": "TestVerifMetaRoundTrip", "X": "TestVerifMetaExec"}
+TESTS = {"R": "TestVerifMetaRaftReplay", "RT": "TestVerifMetaRaftRoundTrip", "X": "TestVerifMetaRaftExec"}
 
 
 def fsm_level(ctx, sd, which):
@@ -208,7 +208,7 @@ def cluster(ctx, sd):
         tp = os.path.join(ctx.scratch, "trace-%s-%d.ndjson" % (label, len(os.listdir(ctx.scratch))))
         p = ctx.write_json("cl-%s.json" % label, {"scenarios": [sc], "trace": tp})
         for attempt in (1, 2):
-            recs, out, rc = ctx.go_test(PKG, FILES, "^TestVerifMetaCluster$", env={"VERIF_IN": p}, timeout=900, label=label)
+            recs, out, rc = ctx.go_test(PKG, FILES, "^TestVerifMetaRaftCluster$", env={"VERIF_IN": p}, timeout=900, label=label)
             done = [r for r in recs if r.get("k") == "done"]
             if done and rc == 0:
                 break
